@@ -138,6 +138,16 @@ def faDrain (T : Txt) (c : Nat) (sched : Nat → Nat) : Nat → FaReader → Lis
 def parseFastaVia (T : Txt) (c : Nat) (sched : Nat → Nat) (file : Bytes) : List (SItem FaItem) :=
   (faDrain T c sched (file.length + 1) { rd := init file, line := [] }).1
 
+/-- the number of `Records::next` calls up to and including the one that returns `None` (`none`: more than `fuel`).
+After an item `Some(Err(_))` the next call returns `None` (`error_has_occured`). -/
+def faNextCalls (T : Txt) (c : Nat) (sched : Nat → Nat) : Nat → FaReader → Option Nat
+  | 0, _ => none
+  | fuel + 1, r =>
+    match faReadS T c sched r with
+    | (.utf8, _) => some 2
+    | (.err, _) => some 2
+    | (.record x, r') => if x.isEmpty then some 1 else (faNextCalls T c sched fuel r').map (· + 1)
+
 /-! ## FASTQ -/
 
 /-- `read_line` + `while !line.is_empty() && !line.starts_with('+') { seq.push_str(line.trim_end()); line.clear();
@@ -200,6 +210,15 @@ def fqDrain (T : Txt) (c : Nat) (sched : Nat → Nat) : Nat → St → List (SIt
     | (.eof, rd') => ([], rd')
     | (.item i, rd') => (.item i :: (fqDrain T c sched fuel rd').1, (fqDrain T c sched fuel rd').2)
     | (.utf8, rd') => (.utf8 :: (fqDrain T c sched fuel rd').1, (fqDrain T c sched fuel rd').2)
+
+/-- the number of `fastq::Records::next` calls up to and including the one that returns `None` -/
+def fqNextCalls (T : Txt) (c : Nat) (sched : Nat → Nat) : Nat → St → Option Nat
+  | 0, _ => none
+  | fuel + 1, rd =>
+    match fqReadS T c sched rd with
+    | (.eof, _) => some 1
+    | (.item _, rd') => (fqNextCalls T c sched fuel rd').map (· + 1)
+    | (.utf8, rd') => (fqNextCalls T c sched fuel rd').map (· + 1)
 
 def parseFastqVia (T : Txt) (c : Nat) (sched : Nat → Nat) (file : Bytes) : List (SItem FqItem) :=
   (fqDrain T c sched (file.length + 1) (init file)).1
